@@ -10,7 +10,7 @@ the standard library's own position tracking on the recorded token slices.
 """
 from bs4 import BeautifulSoup
 import itertools, warnings
-import common
+import common, tokrec
 from props import c04
 
 RULE = ("documents from the C04 writer (tags after multi-line text, comments, CDATA, references, other tags on the same "
@@ -20,8 +20,18 @@ RULE = ("documents from the C04 writer (tags after multi-line text, comments, CD
         "increasing); each with store_line_numbers=True, =False and not passed (default: on). Non-trivial: >= 2 tags and >= 1 newline. Distinct by "
         "(setting, markup).")
 ASSUMPTIONS = [
-    "where HTMLParser.getpos() points when a start-tag callback fires is the standard library's business: recorded "
-    "per input and compared with the writer's offsets (measured, not proved)",
+    "the standard library's tokenizer (html/parser.py + _markupbase.py of the running interpreter, convert_charrefs=False, "
+    "feed then close) is represented by the hand-written Model/Tokenizer.v; the tie is (a) correspondence on every input of "
+    "this harness against both the plain HTMLParser and the BeautifulSoupHTMLParser object inside BeautifulSoup(...), "
+    "(b) fingerprints of every pattern string and method source the model follows, pinned by a proof (Props/C18.v "
+    "C18_tok_patterns_pinned / C18_tok_sources_pinned), (c) \\s and re.IGNORECASE tables measured over all code points",
+    "html.unescape (attribute values) is a parameter of the tokenizer model: the harness applies Python's html.unescape to "
+    "the model's raw attribute values before comparing",
+    "str.lower() on tag / attribute names: the model lower-cases ASCII letters; the harness applies Python's lower() to the "
+    "model's names before comparing (exact because lower(ascii_lower(s)) = lower(s); the translator checks that no "
+    "non-ASCII character lower-cases to an ASCII letter the tokenizer compares with: script, style, doctype, marked-section keywords)",
+    "input alphabet of the tokenizer correspondence: see coverage.tokenizer_model.alphabet; no input is skipped as unmodelled "
+    "(the model covers every branch of goahead incl. AssertionError exits); lone surrogates are not generated",
     "Model.Pos.updatepos mirrors _markupbase.ParserBase.updatepos and is compared with the recorded token slices",
 ]
 
@@ -47,8 +57,13 @@ def offset_of(text, pos):
     return i + col
 
 
+TOK_NAME_BS4 = ("BeautifulSoupHTMLParser inside BeautifulSoup(...) (top-level callbacks with getpos(), consumed slices) ~ "
+                "Model.Tokenizer.tokenize")
+
+
 def check_batch(ctx, items):
     cmds_pos, cmds_lc, cmds_tok, rows = [], [], [], []
+    tok_rows = []
     for c, markup, kind, tags in items:
         for setting in (True, False, None):           # None: the option is not passed (the builder's default: on)
             kwargs = dict(c["kwargs"])
@@ -94,6 +109,8 @@ def check_batch(ctx, items):
                 continue
             cmds_pos.append([18002, c04.enc_acfg(cc), [c04.enc_hev(h) for h in log.hevs]])
             rows.append((case, got, log))
+            if setting is True:
+                tok_rows.append((case, markup, log))
             if store:
                 offs = sorted({0, len(markup)} | {o for o in (offset_of(markup, p) for _, p in got if p is not None) if o is not None}
                               | {i for i, ch in enumerate(markup) if ch == "\n"} | {i + 1 for i, ch in enumerate(markup) if ch == "\n"})
@@ -105,6 +122,21 @@ def check_batch(ctx, items):
                     ctx.count("token_slices_not_contiguous")
     if not ctx.build.model_ok:
         return
+    # the tokenizer model against the real parser object bs4 drives (bs4's overrides on the path)
+    for (case, markup, log), m in zip(tok_rows, ctx.model.run([[18003, r[1]] for r in tok_rows])):
+        mod = tokrec.decode_model(m)
+        ctx.count("tok_bs4_inputs")
+        if mod["status"] != 0:
+            ctx.disagree(TOK_NAME_BS4, case, "parsed", "model status %d" % mod["status"])
+            continue
+        a, b = tokrec.flatten_log(log.hevs), tokrec.flatten_model(mod)
+        if a != b:
+            ctx.disagree(TOK_NAME_BS4, case, c04.first_diff(a, b), None)
+            continue
+        sa = [[s, list(p)] for s, p in log.toks]
+        sb = [[it[2], nxt] for it, nxt in zip(mod["items"], [x[1] for x in mod["items"][1:]] + [mod["pos"]])]
+        if sa != sb:
+            ctx.disagree(TOK_NAME_BS4 + " (slices)", case, c04.first_diff(sa, sb), None)
     for (case, got, log), m in zip(rows, ctx.model.run(cmds_pos)):
         mp = [(c04._s(n), tuple(p[0]) if p else None) for n, p in m[0]]
         if mp != got or m[1] != 1:
@@ -129,8 +161,11 @@ def run(ctx):
     rng = ctx.rng
     items = []
 
+    seen_markup = []
+
     def add(c, markup, kind, tags=None):
         items.append((c, markup, kind, tags))
+        seen_markup.append(markup)
         if len(items) >= 1000:
             check_batch(ctx, items)
             del items[:]
@@ -163,9 +198,31 @@ def run(ctx):
     for i in range(10000 if ctx.thorough else 800):
         add(c04.CONFIGS[i % len(c04.CONFIGS)], c04.gen_soup(rng) + ("\n" if i % 2 else "") + c04.gen_soup(rng), "soup")
     check_batch(ctx, items)
+    tokenizer_correspondence(ctx, rng, seen_markup)
     reused_builder(ctx, rng)
     builder_configurations(ctx, rng)
     decoded_text_positions(ctx, rng)
+
+
+def tokenizer_correspondence(ctx, rng, seen_markup):
+    """Model.Tokenizer (the model of the installed html/parser.py + _markupbase.py the C18 / C04 string-level theorems are
+    about) against the plain standard-library parser, on: every markup of the main stream, the documented malformed
+    stream (tokrec.ALPHA / tokrec.PIECES), and every string of length <= 4 (quick) / 5 (thorough) over tokrec.SMALL_ALPHA."""
+    n = 5 if ctx.thorough else 4
+    s1 = tokrec.run_correspondence(ctx, seen_markup, "docs")
+    s2 = tokrec.run_correspondence(ctx, (tokrec.gen_random(rng) for _ in range(120000 if ctx.thorough else 8000)), "random")
+    s3 = tokrec.run_correspondence(ctx, tokrec.exhaustive_small(n), "small")
+    ctx.extra_cov["tokenizer_model"] = {
+        "documents_of_main_stream": s1, "malformed_stream": s2, "exhaustive": s3,
+        "exhaustive_scope": "every string of length <= %d over %r" % (n, tokrec.SMALL_ALPHA),
+        "alphabet": "ASCII: every character the tokenizer's patterns mention, letters of both cases, digits, NUL, the "
+                    "control characters \\t \\n \\x0b \\x0c \\r \\x1c; non-ASCII: plain (e-acute, snowman, an astral "
+                    "character), Unicode whitespace (\\x85 \\xa0 U+2028 U+3000), characters re.IGNORECASE folds to ASCII "
+                    "(U+017F U+0130 U+0131 U+212A), upper-case non-ASCII letters (E-acute, Sigma) and sharp s",
+        "skipped_as_unmodelled": 0,
+        "construct_counts": "see counts tok_<stream>_<construct>"}
+    if not ctx.samples or len(ctx.samples) < 6:
+        ctx.sample({"tokenizer_model_streams": {"docs": s1, "random": s2, "small": s3}})
 
 
 def decoded_text_positions(ctx, rng):
